@@ -197,11 +197,12 @@ PROPS["C17"] = {
              "every ParseError span lies inside the source on char boundaries",
     "harnesses": [
         H("h_c17_spans", shards={"quick": shard_product(("group", 3), ("pad", 3), ("fragment", 2), ("lead", 2)), "thorough": shard_product(("group", 3), ("pad", 3), ("fragment", 2), ("lead", 2))}),
-        H("h_c17_error_spans", shards={"quick": shard_choose("k", 9), "thorough": shard_choose("k", 9)}),
+        H("h_c17_error_spans", shards={"quick": shard_choose("k", 11), "thorough": shard_choose("k", 11)}),
+        H("h_c17_cdata_edges", shards={"quick": shard_choose("k", 4), "thorough": shard_choose("k", 4)}),
     ],
     "bounds": {"quick": "one document template containing every span kind (prefixed element, 2 attributes, text, comment, PI, "
                         "text+CDATA+text run, empty element), contents symbolic two at a time (1 char each), 3 offset shifts, parse and "
-                        "parse_fragment; 9 error templates x 3 shifts", "thorough": "same"},
+                        "parse_fragment; 11 error templates x 3 shifts; text made of CDATA sections (content empty or one symbolic char) alone, first or last in its run", "thorough": "same"},
     "outside": "documents other than the templates",
     "assumptions": [],
 }
